@@ -76,6 +76,10 @@ mod header;
 mod pmtiles;
 mod tile_manager;
 
+/// Verification-only hooks (cargo feature `verif`, off by default).
+#[cfg(feature = "verif")]
+pub mod verif;
+
 /// Utilities for reading and writing `PMTiles` archives.
 pub mod util;
 
